@@ -22,13 +22,14 @@ Inductive err : Type :=
 | ENoConverge     (* binary search: "hit maximum iterations, did not converge fast enough" *)
 | EFuncError      (* binary search: the searched function returned an error *)
 | EInt64Range     (* "Int64() out of bound" *)
+| EExpContract    (* exp2ChebyshevRationalApprox: "exponent must be in the range [0, 1]" *)
 | EFuel.          (* model-only: a loop bound of the model was exhausted; proved unreachable where it matters; never equal to a driver code *)
 
 Definition err_code (e : err) : Z :=
   match e with
   | ENegSqrt => 1 | ENegExponent => 2 | EExpTooLarge => 3 | ELogDomain => 4 | ELogBase => 5
   | EPowBaseLE0 => 6 | EPowBaseGE2 => 7 | EPowIterLimit => 8 | EOverflow => 9 | EDivZero => 10
-  | ENoConverge => 11 | EFuncError => 12 | EInt64Range => 13 | EFuel => 77
+  | ENoConverge => 11 | EFuncError => 12 | EInt64Range => 13 | EExpContract => 14 | EFuel => 77
   end.
 
 Inductive result (A : Type) : Type := Ok (a : A) | Err (e : err).
@@ -81,3 +82,19 @@ Fixpoint dc_power_loop (fuel : nat) (d tmp i : Z) : result (Z * Z) :=
 Definition dc_power (d power : Z) : result Z :=      (* power: a uint64, 0 <= power < 2^64, so 64 halvings suffice *)
   if power =? 0 then Ok P18 else
   do (d', tmp) <- dc_power_loop 64 d P18 power; dc_mul d' tmp.
+
+(* BigDec.PowerIntegerMut (square and multiply), every MulMut with its bit-length assertion *)
+Fixpoint bdc_power_loop (fuel : nat) (d tmp i : Z) : result (Z * Z) :=
+  if 1 <? i then
+    match fuel with
+    | O => Err EFuel
+    | S f => do tmp' <- (if Z.odd i then bdc_mul tmp d else Ok tmp);
+             do d' <- bdc_mul d d;
+             bdc_power_loop f d' tmp' (Z.quot i 2)
+    end
+  else Ok (d, tmp).
+Definition bdc_power_integer (d power : Z) : result Z :=        (* power: uint64 *)
+  if power =? 0 then Ok P36
+  else if power =? 1 then Ok d
+  else if power =? 2 then bdc_mul d d
+  else do (d', tmp) <- bdc_power_loop 64 d P36 power; bdc_mul d' tmp.
